@@ -21,7 +21,7 @@ func init() {
 		r.Rule = "fault enumeration: for every generated template (all constructs: prints with prefix/suffix, conditions, switches, counter and range loops with separators and else, includes, regions, break/continue/lazybreak/exit) " +
 			"the fault-free render gives the number of Write calls W; then for EVERY k in 1..W the render is repeated with a writer that fails the k-th call and all later ones; " +
 			"required: non-nil error and accepted bytes a prefix of the fault-free output; every run also compared with the Lean model; non-trivial = W >= 2; distinct by (template, data, k)"
-		cfg := GenCfg{MaxDepth: 3, MaxNodes: 12, Loops: true, Ctl: true, BreakN: true, LazyBreak: true, Switch: true, Include: true, Exit: true, Region: true, PreSuf: true, Mods: true, Ternary: true, Helpers: true}
+		cfg := GenCfg{MaxDepth: 3, MaxNodes: 12, Loops: true, Ctl: true, BreakN: true, LazyBreak: true, Switch: true, Include: true, Exit: true, Region: true, PreSuf: true, Mods: true, Ternary: true, Helpers: true, Defer: true}
 		nT := r.N(700, 16000)
 		var cases []*RCase
 		// second half: loop nests with break / continue / lazybreak only (a write after loop control is where an
@@ -85,14 +85,24 @@ func init() {
 			// sequence on one context: render, (render | reset+sets), render, reset
 			env := append([]SOp(nil), c.Ops[:len(c.Ops)-1]...)
 			ops := append([]SOp(nil), c.Ops...)
-			switch r.Rng.Intn(3) {
+			switch r.Rng.Intn(5) {
 			case 0:
 				ops = append(ops, SOp{Kind: "render", Key: "main"})
 			case 1:
 				ops = append(ops, SOp{Kind: "reset"})
 				ops = append(ops, env...)
 				ops = append(ops, SOp{Kind: "render", Key: "main"})
+			case 2:
+				// a second reset right after the first: nothing is released twice
+				ops = append(ops, SOp{Kind: "reset"}, SOp{Kind: "reset"}, SOp{Kind: "render", Key: "probe"})
+			case 3:
+				// after the reset a render that acquires FEWER objects, then reset again: only its own are released
+				c.Tpls = append(c.Tpls, TplDef{Key: "small", Src: "{%= si|vacquire(901) %}s", KeepFmt: true})
+				ops = append(ops, SOp{Kind: "reset"})
+				ops = append(ops, env...)
+				ops = append(ops, SOp{Kind: "render", Key: "small"}, SOp{Kind: "reset"}, SOp{Kind: "render", Key: "probe"}, SOp{Kind: "reset"})
 			}
+			c.Pool = r.Rng.Intn(3) == 0 // reset = ReleaseCtx + AcquireCtx
 			ops = append(ops, SOp{Kind: "reset"})
 			// a final render of a trivial template exposes the log after the last reset
 			c.Tpls = append(c.Tpls, TplDef{Key: "probe", Src: "p", KeepFmt: true})
